@@ -109,6 +109,19 @@ def injections(ver, o, rng):
             corrupt.get(oo, path)["extensions"] = {EDEF: {"extension_type": "toplevel-property-extension"}}
             corrupt.get(oo, path)["x_smuggled"] = 1
             yield "toplevel-extension-claim-in-2.0", section, oo
+        if ver == "2.1" and section.startswith(("embedded", "marking")) and "extensions" not in host:
+            # only objects can be extended: inside an embedded object (which has no `extensions` property at all) such an entry
+            # excuses nothing
+            oo = copy.deepcopy(o)
+            corrupt.get(oo, path)["extensions"] = {EDEF: {"extension_type": "toplevel-property-extension"}}
+            corrupt.get(oo, path)["x_smuggled"] = 1
+            yield "toplevel-extension-claim-in-embedded-object", section, oo
+        if section.startswith(("embedded", "marking", "extension")):
+            # the name of the other constructor switch: no way to have identifiers checked less strictly
+            oo = copy.deepcopy(o)
+            corrupt.get(oo, path)["x_custom_prop"] = "v"
+            corrupt.get(oo, path)["interoperability"] = True
+            yield "custom-property-with-interoperability-key", section, oo
         # keys that are constructor switches rather than properties, arriving as data
         if section.startswith(("embedded", "marking", "extension")):
             oo = copy.deepcopy(o)
